@@ -839,7 +839,7 @@ func TestC08(t *testing.T) {
 	}
 
 	t.Run("roundtrip", func(t *testing.T) {
-		ev.Check(t, 70, 1200, func(rt *rapid.T) {
+		ev.Check(t, 70, 2500, func(rt *rapid.T) {
 			p := c08DrawPlan(rt, maxTx)
 			w := c08Build(p)
 			defer w.Close()
@@ -867,7 +867,7 @@ func TestC08(t *testing.T) {
 		if c08Poisoned() {
 			t.Fatalf("not run: an earlier decoder call ran away and is still consuming memory")
 		}
-		ev.Check(t, 70, 1200, func(rt *rapid.T) {
+		ev.Check(t, 70, 2500, func(rt *rapid.T) {
 			p := c08DrawPlan(rt, maxTx)
 			w := c08Build(p)
 			defer w.Close()
@@ -903,7 +903,7 @@ func TestC08(t *testing.T) {
 		if c08Poisoned() {
 			t.Fatalf("not run: an earlier decoder call ran away and is still consuming memory")
 		}
-		ev.Check(t, 70, 1200, func(rt *rapid.T) {
+		ev.Check(t, 70, 2500, func(rt *rapid.T) {
 			p := c08DrawPlan(rt, maxTx)
 			w := c08Build(p)
 			defer w.Close()
